@@ -45,9 +45,15 @@ def worker(cfg, tier='quick'):
     calls = []
 
     class Model(PauliErrorModel):
+        """probability_distribution hands out the SAME arrays on every call, as the real (lru_cached) one
+        does: a caller that writes into them alters what every later reader gets."""
+        tables = None
+
         def probability_distribution(self, code_, error_rate):
             calls.append((code_, error_rate))
-            return tuple(as_sa([SymReal(t) for t in Q[s]]) for s in 'IXYZ')
+            if self.tables is None:
+                self.tables = tuple(as_sa([SymReal(t) for t in Q[s]]) for s in 'IXYZ')
+            return self.tables
 
     def wit(m):
         return dict(error=[1 if z3.is_true(m.eval(b, model_completion=True)) else 0 for b in E],
@@ -63,17 +69,21 @@ def worker(cfg, tier='quick'):
                 model = Model(1 / 3, 1 / 3, 1 / 3)
                 e = as_sa([Bit(b) for b in E])
                 r = BaseErrorModel.error_probability(model, e, code, 0.1, log_output=log_output)
-                return r, list(NP.observed), list(calls)
+                after = [[term_of(c, 'real') for c in t.cells()] for t in model.tables] if model.tables else None
+                return r, list(NP.observed), list(calls), after
             ps = eng.explore(fn)
         col.absorb(eng)
-        bad_cells, bad_struct = [], []
+        bad_cells, bad_struct, bad_tables = [], [], []
         for p in ps:
             if p.exc is not None:
                 r_, m_, dt_ = col.solve(base + p.pc)
                 col.record('C18/no-exception', r_, dt_, True, wit(m_) if m_ is not None else None,
                            f'{type(p.exc).__name__}: {p.exc}')
                 continue
-            r, obs, cl = p.value
+            r, obs, cl, after = p.value
+            altered = z3.BoolVal(True) if after is None else \
+                z3_or([a != q_ for row, s_ in zip(after, 'IXYZ') for a, q_ in zip(row, Q[s_])])
+            bad_tables.append(z3_and(p.pc + [altered]))
             want_kind = 'sum' if log_output else 'prod'
             red = [a for k, a in obs if k == want_kind]
             log_of_product = False
@@ -111,6 +121,9 @@ def worker(cfg, tier='quick'):
             bad_cells.append(z3_and(p.pc + [z3_or(diffs)]))
         col.prove(f'C18/{tag}/per-qubit-factor-is-channel-probability-of-the-letter', base, z3_or(bad_cells),
                   wit, 'factor i = q_I / q_X / q_Y / q_Z according to (x_i, z_i); all errors, all distributions')
+        col.prove(f'C18/{tag}/distribution-tables-not-altered-by-the-query', base, z3_or(bad_tables), wit,
+                  'the arrays handed out by probability_distribution (shared with every later reader: sampling, '
+                  'decoder priors) hold the same values after error_probability returned')
         col.prove(f'C18/{tag}/result-is-{"sum-of-logs" if log_output else "product"}-of-the-n-factors', base,
                   z3_or(bad_struct), wit,
                   'exactly one reduction over the n per-qubit factors (log form: sum of logs, or the log of their '
@@ -341,6 +354,20 @@ def replay(path):
     n = code.n
     e = np.array(w['error'], dtype=np.uint8)
     q = {s: [float(Fraction(x)) for x in w['q'][s]] for s in 'IXYZ'}
+
+    if 'tables-not-altered' in oid:
+        tabs = tuple(np.array(q[s]) for s in 'IXYZ')
+        keep = [t.copy() for t in tabs]
+
+        class ModelT(PauliErrorModel):
+            def probability_distribution(self, code_, error_rate):
+                return tabs
+        with np.errstate(divide='ignore'):
+            ModelT(1 / 3, 1 / 3, 1 / 3).error_probability(e, code, 0.1, log_output=('/log/' in oid))
+        bad = any((a != b).any() for a, b in zip(tabs, keep))
+        print('tables before', [k_.tolist() for k_ in keep], 'after', [t.tolist() for t in tabs])
+        print('REPLAY', 'reproduced' if bad else 'not-reproduced', oid, cfg)
+        return 0
 
     class Model(PauliErrorModel):
         def probability_distribution(self, code_, error_rate):
